@@ -805,6 +805,13 @@ class Monitor:
         for f in (contextlib._GeneratorContextManager.__enter__,
                   contextlib._GeneratorContextManager.__exit__):
             self._codes_of(f, seen)
+        # the standard logging machinery: Handler.handle()/emit() swallow every Exception a record causes, an
+        # abort raised by a signal handler while the main thread is in there included
+        import logging as _logging
+
+        for v in list(vars(_logging).values()):
+            if getattr(v, "__module__", None) == "logging":
+                self._codes_of(v, seen)
         self.codes = seen
         kill = set()
         for f in (shutil.copytree, shutil._copytree, shutil.copy2, shutil.copyfile, shutil.copystat,
